@@ -443,6 +443,8 @@ func c02Check(ci interface{}) Verdict {
 			fx := ""
 			if strings.Contains(c.HTML, "float:footnote") {
 				fx = ":with-footnote"
+			} else if strings.Contains(c.HTML, "break-before:avoid") || strings.Contains(c.HTML, "break-after:avoid") {
+				fx = ":with-avoided-break"
 			}
 			if len(got) != f.N*len(r.Pages) {
 				return Viol("fixed:count"+fx, "the %d words of the fixed-position flow %s appear %d times in total over %d pages (once per page expected): %v\n%s", f.N, f.ID, len(got), len(r.Pages), got, doc())
